@@ -82,5 +82,69 @@ theorem add_ignored (c : Cls) (t : Trie V) (name : Str) (v : V) (hc : t.converte
   · simp [hc]
   · simp [hc, h]
 
+/-! ### look-ups read back the map (before finalisation) -/
+
+theorem walkFrom_eq (t : Trie V) (hc : t.converted = false) (p ws q : List Word) (h : walkFrom t p ws = some q) :
+    q = p ++ ws := by
+  induction ws generalizing p with
+  | nil => simp [walkFrom] at h; simp [h]
+  | cons w ws ih =>
+    simp only [walkFrom, hc, Bool.false_and, Bool.false_eq_true, ↓reduceIte] at h
+    split at h
+    · have := ih (p ++ [w]) h; simpa using this
+    · cases h
+
+theorem walkFrom_node (t : Trie V) (p ws : List Word) (h : isNodeB t.names (p ++ ws) = true) :
+    walkFrom t p ws = some (p ++ ws) := by
+  induction ws generalizing p with
+  | nil => simp [walkFrom]
+  | cons w ws ih =>
+    have hn : isNodeB t.names (p ++ [w]) = true := by
+      rw [isNodeB_iff] at h ⊢
+      have : p ++ w :: ws = (p ++ [w]) ++ ws := by simp
+      rw [this] at h
+      exact node_prefix_closed h
+    simp only [walkFrom, hn, ↓reduceIte]
+    have := ih (p ++ [w]) (by simpa using h)
+    simpa using this
+
+/-- **map refinement, read**: before finalisation `get` returns what is stored under the folded word
+    sequence of the name asked for — so look-ups ignore letter case and the amount of whitespace -/
+theorem get_lookup (c : Cls) (t : Trie V) (hc : t.converted = false) (name : Str) (hw : wordsOf c name ≠ []) :
+    t.get c name = (lookupW t (wordsOf c name)).map (fun e => (e.name, e.val)) := by
+  have hn : name.isEmpty = false := by
+    cases name with
+    | nil => exact absurd (by simp [wordsOf, wordPieces, pieces, lexGo]) hw
+    | cons _ _ => rfl
+  unfold Trie.get Trie.getNode
+  simp only [hn, Bool.false_eq_true, ↓reduceIte]
+  cases hwalk : walkFrom t [] (wordsOf c name) with
+  | some q =>
+    have := walkFrom_eq t hc [] _ q hwalk
+    simp only [List.nil_append] at this
+    subst this
+    have he : (wordsOf c name).isEmpty = false := by cases h : wordsOf c name <;> simp_all
+    simp [Trie.outputAt, he, lookupW]
+  | none =>
+    simp only
+    cases hl : lookupW t (wordsOf c name) with
+    | none => rfl
+    | some e =>
+      exfalso
+      have hmem := List.mem_of_find?_eq_some hl
+      have hwe : e.words = wordsOf c name := by simpa using List.find?_some hl
+      have hnode : isNodeB t.names ([] ++ wordsOf c name) = true := by
+        rw [isNodeB_iff]
+        right
+        exact ⟨e.words, by simp [Trie.names]; exact ⟨e, hmem, rfl⟩, by simp [hwe]⟩
+      rw [walkFrom_node t [] _ hnode] at hwalk
+      cases hwalk
+
+theorem exists_lookup (c : Cls) (t : Trie V) (hc : t.converted = false) (name : Str) (hw : wordsOf c name ≠ []) :
+    t.exists_ c name = (lookupW t (wordsOf c name)).isSome := by
+  unfold Trie.exists_
+  rw [get_lookup c t hc name hw]
+  cases lookupW t (wordsOf c name) <;> rfl
+
 end AC
 end LE
